@@ -13,7 +13,51 @@ import (
 
 type c20hit struct{ typ, line int }
 
-type c20m struct{ hits, optional []c20hit }
+type c20m struct {
+	hits, optional []c20hit
+	src            []byte // the program text: numeric literals are classified from their spelling, not from the parser's node kind
+	badLiteral     bool
+}
+
+// the spelling of a numeral decides whether it is a float: a decimal numeral with a '.' or an exponent,
+// a hexadecimal one with a '.' or a binary exponent (Lua 5.3 manual 3.1)
+func c20spelledFloat(t string) bool {
+	hex := len(t) > 1 && t[0] == '0' && (t[1] == 'x' || t[1] == 'X')
+	for i := 0; i < len(t); i++ {
+		c := t[i]
+		if c == '.' || (hex && (c == 'p' || c == 'P')) || (!hex && (c == 'e' || c == 'E')) {
+			return true
+		}
+	}
+	return false
+}
+
+func (m *c20m) literal(l lexer.Location, isFloat bool) {
+	if m.src == nil || l.StartLine != l.EndLine {
+		return
+	}
+	line, col, a, b := 1, 0, -1, -1
+	for i := 0; i <= len(m.src); i++ {
+		if line == l.StartLine && col == l.StartColumn {
+			a = i
+		}
+		if line == l.StartLine && col == l.EndColumn {
+			b = i
+		}
+		if i < len(m.src) && m.src[i] == '\n' {
+			line++
+			col = 0
+		} else {
+			col++
+		}
+	}
+	if a < 0 || b <= a {
+		return
+	}
+	if c20spelledFloat(string(m.src[a:b])) != isFloat {
+		m.badLiteral = true
+	}
+}
 
 func (m *c20m) hit(typ int, l lexer.Location) { m.hits = append(m.hits, c20hit{typ, l.StartLine}) }
 
@@ -186,6 +230,10 @@ func c20isFloat(e ast.Exp) bool {
 
 func (m *c20m) exp(e ast.Exp) {
 	switch x := e.(type) {
+	case *ast.IntegerExp:
+		m.literal(x.Loc, false)
+	case *ast.FloatExp:
+		m.literal(x.Loc, true)
 	case *ast.ParensExp:
 		m.exp(x.Exp)
 	case *ast.UnopExp:
@@ -300,6 +348,8 @@ var c20templates = []string{
 	/* 21 */ "function f(\x01, _, \x02) end\nlocal g = function(\x01, _, _, \x02) end\nlocal h = function(_, \x01, _) end\n",
 	// patterns nested in the surplus values of a declaration / assignment are analysed like any other
 	/* 22 */ "local p = 1, \x01 == \x02\nlocal q = f(), { \x01 = 1, \x02 = 2 }\nlocal r, s = 1, 2, \x03 or true, function(\x01, \x02) end\ng = 1, \x01 and false\n",
+	// numerals in every spelling as compared operands, keys and conditions
+	/* 23 */ "local r = \x01 == 0x\x1eF\nlocal t = { [0x0\x1e] = 1, [0x0\x1e] = 2 }\nif \x01 == 0x\x1eF then g = 1 elseif \x01 == 0x\x1eF then g = 2 end\nlocal s = \x01 ~= 0x\x1e.8\nlocal u = \x01 == 0x\x1ep1\nlocal v = \x01 == \x1f\x1f\nlocal w = \x01 == 1e\x1f\n",
 }
 
 func VerifRun_C20() {
@@ -307,6 +357,7 @@ func VerifRun_C20() {
 	t := []byte(c20templates[ti])
 	var names [10]byte
 	var have [10]bool
+	var hexd, decd byte
 	for i, c := range t {
 		switch {
 		case c >= 1 && c <= 9:
@@ -323,6 +374,16 @@ func VerifRun_C20() {
 			t[i] = verifByteIn("d1", "12")
 		case c == 0x1d:
 			t[i] = verifByteIn("d2", "12")
+		case c == 0x1e: // one hexadecimal digit for the whole instance
+			if hexd == 0 {
+				hexd = verifByteIn("hexdigit", "0aFfE")
+			}
+			t[i] = hexd
+		case c == 0x1f:
+			if decd == 0 {
+				decd = verifByteIn("decdigit", "19")
+			}
+			t[i] = decd
 		}
 	}
 	file := "/w/a.lua"
@@ -350,9 +411,12 @@ func VerifRun_C20() {
 			verifViolation("", "harness: template instance has a syntax error")
 		}
 	}
-	m := &c20m{}
+	m := &c20m{src: t}
 	m.block(fs[0].FileResult.Block)
 	verifReach("matched")
+	if m.badLiteral {
+		verifViolation("", "a numeric literal is taken for a float although it is spelled as an integer (or the reverse): the float-equality, duplicate-key and repeated-condition checks then fire or stay silent wrongly")
+	}
 	digest := ""
 	for _, g := range got {
 		digest += strconv.Itoa(g.typ) + "@" + strconv.Itoa(g.line) + " "
